@@ -302,12 +302,14 @@ def lean_check(pid, gen_modules=(), clean=False, leanchecker=False, extra=()):
         res["log"] = log[-6000:]
         thms, nex = prop_theorems(pid)
         res["obligations"] = len(thms) + nex
+        # also when a theorem module failed: the driver (which imports no theorem) may have been linked all the same, and
+        # the searches that follow run it after the lock is released
+        _keep_driver_copy()
         if rc != 0:
             res["failed"] = sorted(set(re.findall(r"error: ([^\n]+)", log)))[:20]
             failed_thms = [t for t in thms if re.search(r"\b" + re.escape(t) + r"\b", log)]
             res["failed_theorems"] = failed_thms
             return res
-        _keep_driver_copy()
         audit = os.path.join(LEAN, ".lake", f"audit_{pid}.lean")
         with open(audit, "w") as fh:
             fh.write(f"import {mod}\nopen Heimdall.Props.{pid}\n")
